@@ -1218,11 +1218,22 @@ class FuncCanon(object):
                 break
 
     def websplit(self):
-        """A local name reused for independent values (every read follows, in the same block, the plain assignment it
-        belongs to, with no other assignment of the name in between): each assignment-and-its-reads gets its own name, so the
-        single-assignment rewrites apply to each of them."""
+        """A local name reused for independent values (every read follows, in the same block, the assignment it belongs to - a plain assignment
+        or a position of a flat tuple target - with no other assignment of the name in between): each assignment-and-its-reads gets its own
+        name, so the single-assignment rewrites apply to each of them."""
+        def bound_here(st, v):
+            """the Name node through which the simple statement st binds v (plain or flat-tuple assignment), else None"""
+            if not (isinstance(st, ast.Assign) and len(st.targets) == 1):
+                return None
+            tg = st.targets[0]
+            if isinstance(tg, ast.Name):
+                return tg if tg.id == v else None
+            if isinstance(tg, (ast.Tuple, ast.List)) and all(isinstance(x, ast.Name) for x in tg.elts):
+                hits = [x for x in tg.elts if x.id == v]
+                return hits[0] if len(hits) == 1 else None
+            return None
         for v, stores in sorted(self.stores.items()):
-            if len(stores) < 2 or v in self.params or v in self.captured:
+            if len(stores) < 2 or v in self.params or v in self.captured or v == "_":
                 continue
             if not all(isinstance(s_, ast.Name) for s_ in stores):
                 continue
@@ -1233,14 +1244,15 @@ class FuncCanon(object):
             ok = True
             for blk in _all_blocks(self.fn):
                 for k, st in enumerate(blk):
-                    if not (isinstance(st, ast.Assign) and len(st.targets) == 1 and isinstance(st.targets[0], ast.Name) and st.targets[0].id == v):
+                    node = bound_here(st, v)
+                    if node is None:
                         continue
                     plain += 1
                     if any(isinstance(n, ast.Name) and n.id == v for n in ast.walk(st.value)):
                         ok = False
                     region = []
                     for nxt in blk[k + 1:]:
-                        if isinstance(nxt, ast.Assign) and len(nxt.targets) == 1 and isinstance(nxt.targets[0], ast.Name) and nxt.targets[0].id == v:
+                        if bound_here(nxt, v) is not None:
                             # the value side of the next assignment still belongs to this web
                             region.append(nxt.value)
                             break
@@ -1259,7 +1271,7 @@ class FuncCanon(object):
                         if id(n) in claimed:
                             ok = False
                         claimed.add(id(n))
-                    webs.append((st.targets[0], mine))
+                    webs.append((node, mine))
             if not ok or plain != len(stores) or any(id(l) not in claimed for l in loads):
                 continue
             if len(webs) < 2:
@@ -1318,7 +1330,7 @@ class FuncCanon(object):
         changed = False
         for blk in _all_blocks(self.fn):
             top = blk is self.fn.body
-            if self.prop(blk) or self.lencomp(blk) or self.star(blk) or self.callsel(blk) or self.tuplepush(blk) or self.sumloop(blk) or self.listcomp(blk) or self.unroll(blk) or self.listbuild(blk) or self.copyinout(blk) or self.copyin(blk) or self.lockwith(blk) or self.flagloop(blk) or self.ifflag(blk) or self.thread(blk) or self.deadstore(blk) or self.kw(blk) or self.split(blk) or self.retsplit(blk) or self.unindex(blk) or self.yieldsplit(blk) or self.forelse(blk) or self.dowhile(blk) or self.withsink(blk) or self.testsplit(blk) or self.rot(blk) or self.brk(blk, top) or self.wtop(blk) or self.ifs(blk) or self.sink(blk) or self.unpack(blk) or self.fwd(blk):
+            if self.prop(blk) or self.lencomp(blk) or self.star(blk) or self.callsel(blk) or self.tuplepush(blk) or self.sumloop(blk) or self.listcomp(blk) or self.unroll(blk) or self.listbuild(blk) or self.copyinout(blk) or self.copyin(blk) or self.copyprop(blk) or self.flageq(blk) or self.lockwith(blk) or self.flagloop(blk) or self.ifflag(blk) or self.thread(blk) or self.deadstore(blk) or self.kw(blk) or self.split(blk) or self.retsplit(blk) or self.unindex(blk) or self.yieldsplit(blk) or self.forelse(blk) or self.dowhile(blk) or self.withsink(blk) or self.testsplit(blk) or self.rot(blk) or self.brk(blk, top) or self.wtop(blk) or self.ifs(blk) or self.sink(blk) or self.unpack(blk) or self.fwd(blk):
                 return True
         return changed
 
@@ -1611,6 +1623,91 @@ class FuncCanon(object):
                 ast.fix_missing_locations(x)
             blk[k:i + 1] = new
             self.bump("LISTCOMP")
+            return True
+        return False
+
+    # -- COPYPROP --------------------------------------------------------------------------------------------------
+    def copyprop(self, blk):
+        """`t = v` for an inliner temporary t bound once, v bound once (or a parameter never re-bound): t is another name for v everywhere."""
+        for a, st in enumerate(blk):
+            if not (isinstance(st, ast.Assign) and len(st.targets) == 1 and isinstance(st.targets[0], ast.Name) and isinstance(st.value, ast.Name)):
+                continue
+            t, v = st.targets[0].id, st.value.id
+            if t not in self.fresh or t == v or t in self.captured or v in self.captured or t in self.params:
+                continue
+            if len(self.stores.get(t, ())) != 1 or not isinstance(self.stores[t][0], ast.Name):
+                continue
+            nv = len(self.stores.get(v, ()))
+            if not ((v in self.params and nv == 0) or (v not in self.params and nv == 1 and isinstance(self.stores[v][0], ast.Name) and v not in self.loop_stored)):
+                continue
+            if t in self.loop_stored and v not in self.params and False:
+                continue
+            for n in self.loads.get(t, []):
+                n.id = v
+            if len(blk) == 1:
+                blk[a] = ast.copy_location(ast.Pass(), st)
+            else:
+                del blk[a]
+            self.bump("COPYPROP")
+            return True
+        return False
+
+    # -- FLAGEQ ----------------------------------------------------------------------------------------------------
+    def flageq(self, blk):
+        """`if C: ..; v = None` / `else: ..; v = E` (E never None; the only two bindings of v) ... `v is None`   ->   ... `C`
+        for a call-free C over names bound once (and package constants): v is None exactly when C held."""
+        if NULLNESS is None:
+            return False
+        for i, st in enumerate(blk):
+            if not (isinstance(st, ast.If) and st.orelse and st.body):
+                continue
+            la, lb = st.body[-1], st.orelse[-1]
+            if not all(isinstance(x, ast.Assign) and len(x.targets) == 1 and isinstance(x.targets[0], ast.Name) for x in (la, lb)) or la.targets[0].id != lb.targets[0].id:
+                continue
+            v = la.targets[0].id
+            if v in self.params or v in self.captured or len(self.stores.get(v, ())) != 2:
+                continue
+            na = isinstance(la.value, ast.Constant) and la.value.value is None
+            nb = isinstance(lb.value, ast.Constant) and lb.value.value is None
+            if na == nb:
+                continue
+            other = lb.value if na else la.value
+            cls_ = getattr(self.fn, "_sa_cls", None)
+            asg = {k: x for k, x in NULLNESS.local_assigns(self.fn).items() if k != v}
+            if not NULLNESS.nn(other, cls_, self.fn, asg, None, NONNULL_CONSTS):
+                continue
+            C = st.test
+            if _has_call(C) or any(isinstance(n, (ast.Subscript, ast.Lambda, ast.IfExp)) for n in ast.walk(C)):
+                continue
+            stable = True
+            for n in ast.walk(C):
+                if isinstance(n, ast.Name):
+                    if n.id in self.captured or (n.id in self.params and self.stores.get(n.id)) or (n.id not in self.params and len(self.stores.get(n.id, ())) > 1 and n.id not in self.modconsts):
+                        stable = False
+                elif isinstance(n, ast.Attribute):
+                    if _dump(n) not in NONNULL_CONSTS:
+                        stable = False
+            if not stable:
+                continue
+            # the tests to replace: after this statement (any depth), `v is None` / `v is not None`
+            later = [c for s_ in blk[i + 1:] for c in ast.walk(s_) if isinstance(c, ast.Compare) and len(c.ops) == 1 and isinstance(c.ops[0], (ast.Is, ast.IsNot)) and isinstance(c.left, ast.Name)
+                     and c.left.id == v and isinstance(c.comparators[0], ast.Constant) and c.comparators[0].value is None]
+            if not later:
+                continue
+            # the names of C bound once: that binding comes before this statement (so C means the same thing later)
+            before = set(id(n) for s_ in blk[:i] for n in ast.walk(s_))
+            pre = self._prefix_to(self.fn.body, blk)
+            if pre is None:
+                continue
+            before |= set(id(n) for s_ in pre for n in ast.walk(s_))
+            if any(isinstance(n, ast.Name) and n.id not in self.params and n.id not in self.modconsts and any(id(x) not in before for x in self.stores.get(n.id, [])) for n in ast.walk(C)):
+                continue
+            for c in later:
+                positive = isinstance(c.ops[0], ast.Is) == na         # `v is None` when the None arm is the body: C itself
+                newt = copy.deepcopy(C) if positive else negate(copy.deepcopy(C))
+                for s_ in blk[i + 1:]:
+                    _replace_node(s_, c, ast.copy_location(newt, c))
+            self.bump("FLAGEQ")
             return True
         return False
 
